@@ -21,7 +21,8 @@ DESIGN_REF = 'DESIGN.md section 3, C09'
 
 
 def bound(tier):
-    return {'preemptions': 2, 'harness_batches': '2+2' if tier == 'quick' else '2+2, 3+2 (bound 2), 1+1 (bound 3), two runs (bound 1)', 'granularity': 'ttest.py lines + container.py calls' if tier == 'quick' else 'all lines of both files'}
+    return {'preemptions': 2, 'harness_batches': '2+2' if tier == 'quick' else '2+2, 3+2 (bound 2), 1+1 (bound 3), two runs (bound 1)',
+            'granularity': 'ttest.py lines + container.py calls' if tier == 'quick' else 'all lines of both files for ok-2+2, fail-0-0, fail-1-1 and the two-run / bound-1 harnesses; ttest.py lines + container.py calls for the others'}
 
 
 K = 16      # shards per bound-2 exploration (second-level deviations are dealt out by position, see mc/sched.explore)
@@ -29,22 +30,24 @@ K = 16      # shards per bound-2 exploration (second-level deviations are dealt 
 
 def shards(tier, seed):
     out = [{'name': 'values-%d' % i, 'kind': 'values', 'part': i, 'parts': 4, 'cost': 3} for i in range(4)]
-    expl = [('ok-2+2', {'sizes': [4, 3], 'bs': 2, 'inj': None, 'bound': 2, 'runs': 1})]
+    fine = tier == 'thorough'          # thorough: every line of container.py is a scheduling point too (462 points instead of 225 on the 2+2 harness)
+    expl = [('ok-2+2', {'sizes': [4, 3], 'bs': 2, 'inj': None, 'bound': 2, 'runs': 1, 'fine': fine})]
     for i in (0, 1):
         for k in (0, 1):
-            expl.append(('fail-%d-%d' % (i, k), {'sizes': [4, 3], 'bs': 2, 'inj': [i, k], 'bound': 2 if (tier == 'thorough' or k == 0) else 1, 'runs': 1}))
+            b = 2 if (tier == 'thorough' or k == 0) else 1
+            expl.append(('fail-%d-%d' % (i, k), {'sizes': [4, 3], 'bs': 2, 'inj': [i, k], 'bound': b, 'runs': 1, 'fine': fine and i == k}))
     if tier == 'thorough':
-        expl.append(('ok-3+2', {'sizes': [5, 4], 'bs': 2, 'inj': None, 'bound': 2, 'runs': 1}))
-        expl.append(('ok-1+1-b3', {'sizes': [2, 2], 'bs': 2, 'inj': None, 'bound': 3, 'runs': 1}))
-        expl.append(('ok-2runs', {'sizes': [4, 3], 'bs': 2, 'inj': None, 'bound': 1, 'runs': 2}))
-        expl.append(('fail-run2', {'sizes': [4, 3], 'bs': 2, 'inj': [0, 1], 'bound': 1, 'runs': 2}))
-        expl.append(('fail-0-2', {'sizes': [5, 4], 'bs': 2, 'inj': [0, 2], 'bound': 1, 'runs': 1}))
+        expl.append(('ok-3+2', {'sizes': [5, 4], 'bs': 2, 'inj': None, 'bound': 2, 'runs': 1, 'fine': False}))
+        expl.append(('ok-1+1-b3', {'sizes': [2, 2], 'bs': 2, 'inj': None, 'bound': 3, 'runs': 1, 'fine': False}))
+        expl.append(('ok-2runs', {'sizes': [4, 3], 'bs': 2, 'inj': None, 'bound': 1, 'runs': 2, 'fine': True}))
+        expl.append(('fail-run2', {'sizes': [4, 3], 'bs': 2, 'inj': [0, 1], 'bound': 1, 'runs': 2, 'fine': True}))
+        expl.append(('fail-0-2', {'sizes': [5, 4], 'bs': 2, 'inj': [0, 2], 'bound': 1, 'runs': 1, 'fine': True}))
     else:
-        expl.append(('ok-2runs', {'sizes': [2, 2], 'bs': 2, 'inj': None, 'bound': 1, 'runs': 2}))
+        expl.append(('ok-2runs', {'sizes': [2, 2], 'bs': 2, 'inj': None, 'bound': 1, 'runs': 2, 'fine': False}))
     for name, h in expl:
         k = K if h['bound'] >= 2 else 5
         for j in range(k):
-            out.append({'name': 'sched-%s-%d' % (name, j), 'kind': 'sched', 'h': dict(h, fine=(tier == 'thorough')), 'first': [k, j], 'cost': 10 if h['bound'] >= 2 else 3})
+            out.append({'name': 'sched-%s-%d' % (name, j), 'kind': 'sched', 'h': dict(h), 'first': [k, j], 'cost': (10 if h['bound'] >= 2 else 3) * (4 if h['fine'] else 1)})
     out.append({'name': 'freerun', 'kind': 'freerun', 'cost': 2})
     return out
 
